@@ -27,3 +27,13 @@ Theorem interp_ld_rows_are_double_twins :
   exists sd, In (d, sd) interp_table /\ cstmt_eqb sd (ld2d_stmt s) = true /\ row_sound d sd.
 Proof. exact interp_ld_rows. Qed.
 Print Assumptions interp_ld_rows_are_double_twins.
+
+(* ADDO SUBO MULO UMULO and their S variants in the interpreter: the stored result is the documented
+   one and the pre-check formulas assigned to signed_overflow_p / unsigned_overflow_p equal "the exact
+   signed / unsigned result is not representable in the operation's width", for all operands *)
+Theorem overflow_flags_sound : forall op s, In (op, s) interp_table ->
+  forall args r sf uf, doc_ovf op args = Some (r, sf, uf) ->
+  exists r' fs fu, stmt_ovf (env_of args) s = Some (r', fs, fu) /\ eqv op r' r = true
+    /\ (fst (ovf_defined op) = true -> fs = Some sf) /\ (snd (ovf_defined op) = true -> fu = Some uf).
+Proof. exact interp_overflow_flags. Qed.
+Print Assumptions overflow_flags_sound.
